@@ -195,6 +195,7 @@ type tkind struct {
 	name string // struct name
 	elem *tkind // list element
 	alen int64  // array length, -1 for slices and strings
+	fn   string // Coq arrow type of a func-typed value
 }
 
 var usesGoList bool
@@ -220,6 +221,33 @@ func kindOfType(ty types.Type) (tkind, bool) {
 			}
 		}
 		return tkind{}, false
+	}
+	if sig, ok := types.Unalias(ty).Underlying().(*types.Signature); ok && sig.Recv() == nil && !sig.Variadic() {
+		// a func-typed parameter (a callback): a Coq function argument; the theorems quantify over it
+		var parts []string
+		for i := 0; i < sig.Params().Len(); i++ {
+			k, ok := kindOfType(sig.Params().At(i).Type())
+			if !ok || k.k == "func" {
+				return tkind{}, false
+			}
+			parts = append(parts, k.coq())
+		}
+		var res []string
+		for i := 0; i < sig.Results().Len(); i++ {
+			k, ok := kindOfType(sig.Results().At(i).Type())
+			if !ok || k.k == "func" {
+				return tkind{}, false
+			}
+			res = append(res, k.coq())
+		}
+		if len(res) == 0 || len(parts) == 0 {
+			return tkind{}, false // a callback called for its effect only: outside the subset
+		}
+		r := res[0]
+		if len(res) > 1 {
+			r = "(" + strings.Join(res, " * ") + ")%type"
+		}
+		return tkind{k: "func", fn: "(" + strings.Join(parts, " -> ") + " -> " + r + ")"}, true
 	}
 	if _, ok := types.Unalias(ty).(*types.TypeParam); ok {
 		// a value of a type parameter (V any): the code can only copy, zero and return it, so by
@@ -298,6 +326,8 @@ func (k tkind) coq() string {
 		return "T_" + k.name
 	case "list":
 		return "(list " + k.elem.coq() + ")"
+	case "func":
+		return k.fn
 	}
 	return "?"
 }
@@ -334,6 +364,9 @@ func modOf(w int) string {
 func wrapOf(w int) string { return fmt.Sprintf("wrap%d", w) }
 
 func (t *ftr) zeroK(k tkind, ty types.Type, at ast.Node) string {
+	if k.k == "func" {
+		t.bad(at, "a func-typed value has no zero value in the translation (only parameters may be functions)")
+	}
 	switch k.k {
 	case "bool", "err":
 		return "false"
@@ -1191,6 +1224,17 @@ func (t *ftr) call(e *ast.CallExpr) string {
 		if fn, ok := t.pi.info.Uses[f].(*types.Func); ok && fn.Pkg() == t.pi.pkg {
 			return t.apply(t.pi, t.dir, f.Name, nil, e)
 		}
+		if v, ok := t.pi.info.Uses[f].(*types.Var); ok && v.Parent() != t.pi.pkg.Scope() {
+			if k, ok := kindOfType(v.Type()); ok && k.k == "func" {
+				sig := types.Unalias(v.Type()).Underlying().(*types.Signature)
+				parts := []string{t.nameOf(v)}
+				for i, a := range e.Args {
+					ak, _ := kindOfType(sig.Params().At(i).Type())
+					parts = append(parts, t.exprAs(a, ak))
+				}
+				return "(" + strings.Join(parts, " ") + ")"
+			}
+		}
 	case *ast.SelectorExpr:
 		if n := namedOf(t.typeOf(f.X)); isTimeTime(n) {
 			x := t.expr(f.X)
@@ -1495,6 +1539,9 @@ func (t *ftr) block(list []ast.Stmt, k func() string) string {
 	switch s := s.(type) {
 	case *ast.ReturnStmt:
 		v := t.withRecv(t.retValueOrNone(s.Results, s))
+		if v == "" {
+			v = "tt" // bare return of a function without results (loopfunc): the loop ends the function
+		}
 		return t.wrapPending(t.takePending(), t.mkRet(v))
 	case *ast.BlockStmt:
 		return t.block(append(append([]ast.Stmt{}, s.List...), list[1:]...), k)
@@ -2451,10 +2498,11 @@ func doLoopFunc(it Item) {
 	t.rtPlain, t.resZero = "unit", "tt"
 	if hasRet {
 		var rts, zs []string
-		if fd.Type.Results == nil {
-			broken("loopfunc %s.%s: return inside the loop of a function without results", it.Pkg, it.Func)
+		var resFields []*ast.Field
+		if fd.Type.Results != nil {
+			resFields = fd.Type.Results.List
 		}
-		for _, f := range fd.Type.Results.List {
+		for _, f := range resFields {
 			ty := pi.info.Types[f.Type].Type
 			k, ok := kindOfType(ty)
 			if !ok {
@@ -2474,7 +2522,9 @@ func doLoopFunc(it Item) {
 				t.named = append(t.named, t.nameOf(pi.info.Defs[n]))
 			}
 		}
-		t.rtPlain, t.resZero = rts[0], zs[0]
+		if len(rts) > 0 {
+			t.rtPlain, t.resZero = rts[0], zs[0]
+		}
 		if len(rts) > 1 {
 			t.rtPlain = "(" + strings.Join(rts, " * ") + ")%type"
 			t.resZero = "(" + strings.Join(zs, ", ") + ")"
